@@ -76,6 +76,14 @@ def gen(rng, n):
             # ~/.profile): it may be read, it may be removed (the link, not the file), what it points to is never written to
             t0 = argv_td[1].rstrip('/') if argv_td and not argv_td[1].startswith('/lnk/') else lay.home_trash
             extra += [['l', t0 + '/info/notes.trashinfo', rng.choice(['/canary/file', '/canary/dir/x', '/canary/rodir/inside'])], ['f', t0 + '/files/notes', 'p']]
+        other_env = {}
+        if not argv_td and rng.random() < 0.25:
+            # ANOTHER user's trash directory on one of the volumes, and an environment that mentions that user (a shell reached through
+            # sudo -E / su keeps such variables): the purge is the caller's - os.getuid() - and nobody else's
+            ou = lay.uid + 4242
+            vv = rng.choice(lay.all_vols)
+            extra += scen.entry(scen.Layout.j(vv, '.Trash-%d' % ou), 'theirs', 'sh/theirs', '2001-01-01T00:00:00', rng.choice(['f', 'd']))
+            other_env = {'SUDO_UID': str(ou), 'SUDO_GID': str(ou), 'SUDO_USER': 'other', 'LOGNAME': 'other', 'USER': 'other'}
         cmd = rng.choice(['empty', 'empty', 'rm'])
         step = {'cmd': cmd, 'argv': [], 'listdir': rng.choice(['sorted', 'reverse', rng.randint(1, 99)])}
         if cmd == 'empty':
@@ -87,8 +95,10 @@ def gen(rng, n):
                 step['argv'].append('-v')
         else:
             step['argv'] = [rng.choice(['*', '*', 'a*', 'foo*', '/*', '[a-z]*', '?*'])]
+        if other_env:
+            step['env'] = dict(step.get('env') or {}, **other_env)
         scns.append(lay.scenario([step], extra=nodes + extra))
-        tds = [argv_td[1]] if (argv_td and cmd == 'empty') else ([lay.home_trash] + [lay.top1(v) for v in lay.all_vols] + [lay.top2(v) for v in lay.all_vols])
+        tds = [argv_td[1]] if (argv_td and cmd == 'empty') else ([lay.home_trash] + [lay.top1(v) for v in lay.all_vols if lay.top[v][0] == 'sticky'] + [lay.top2(v) for v in lay.all_vols])
         metas.append({'tds': tds, 'cmd': cmd, 'mal': sorted(m['kind'] for m in mal), 'link': any(e['payload'] == 'l' for e in ents),
                       'dir': any(e['payload'] == 'd' for e in ents), 'via': bool(argv_td)})
     return scns, metas
